@@ -110,6 +110,8 @@ func runC10(c *Ctx) {
 	c10Unset(c)
 	c10OnImplementsZero(c, "unset-typed-as-field")
 	c10RecursionExcludesTextM(c, "recursion-excludes-textm")
+	c.rule("nested-transformer-per-field", "the nested Transformer recorded for a field of the translated type (the one ReverseTranslate later uses for that field) is allocated in the loop iteration that records it: one object shared by several fields would leave all of them with the type and state of the last", 1)
+	c10NestedPerField(c, "nested-transformer-per-field")
 	c10ReverseSkipsUntranslated(c, "reverse-skips-untranslated")
 	if dec := c.W.fn("sourcewrap", "transformingDecoder.Decode"); dec != nil {
 		c20Pipeline(c, dec, "("+modPath+".Decoder).Decode", "value-pipeline")
@@ -1367,4 +1369,37 @@ func bothFormsPredicate(h *ssa.Function) bool {
 		return false
 	}
 	return seenD && seenP
+}
+
+// c10NestedPerField: every store into fieldTransformPair.transform records a Transformer allocated in the same
+// loop iteration (or outside any loop when the store is).
+func c10NestedPerField(c *Ctx, rule string) {
+	w := c.W
+	fld := w.field("transform", "fieldTransformPair", "transform")
+	if !c.need(fld != nil, "transform.fieldTransformPair.transform") {
+		return
+	}
+	n := 0
+	for _, st := range w.storesToField(fld) {
+		if isNilConst(st.Val) {
+			continue
+		}
+		n++
+		f := st.Parent()
+		c.analysed(relName(f))
+		al := allocOf(st.Val)
+		okA := al != nil
+		why := "the recorded Transformer is not a local allocation of the recording function"
+		if okA && inLoop(st) {
+			entry := loopBodyEntry(st.Block())
+			if entry == nil || !(entry == al.Block() || entry.Dominates(al.Block())) {
+				okA = false
+				why = "the Transformer recorded for each field is one object allocated outside the loop: after the loop every field refers to the type and state of the last one, and reverse translation rebuilds the others from the wrong nested type"
+			}
+		}
+		c.check(okA, rule, relName(f)+"#record", st.Pos(), "the nested Transformer recorded for a field is allocated in the iteration that records it", why)
+	}
+	if n == 0 {
+		c.bad(rule, "transform", 0, "no nested Transformer is ever recorded in the translation state")
+	}
 }
